@@ -254,14 +254,19 @@ def vacuum(session, model, yield_per=1000):
         .order_by(option(version_cls, 'transaction_column_name'))
     ).yield_per(yield_per)
 
-    primary_key_col = sa.inspection.inspect(model).primary_key[0].name
+    primary_key_cols = [
+        column.name for column in sa.inspection.inspect(model).primary_key
+    ]
 
     for version in query:
-        version_id = getattr(version, primary_key_col)
-        if versions[version_id]:
-            prev_version = versions[version_id][-1]
-            if naturally_equivalent(prev_version, version):
-                session.delete(version)
+        version_id = tuple(
+            getattr(version, column_name) for column_name in primary_key_cols
+        )
+        if (
+            versions[version_id] and
+            naturally_equivalent(versions[version_id][-1], version)
+        ):
+            session.delete(version)
         else:
             versions[version_id].append(version)
 
